@@ -211,6 +211,12 @@ def gen_items(tier, seed):
         items.append(('G9', {'kind': 'utxo250_equal', 'strategy': st}))
         if not quick or st != 'random_draw':
             items.append(('G9', {'kind': 'utxo250_distinct', 'strategy': st}))
+    # G12: funding layout - the same coins spread over funding transactions in different ways (the sqlite chooser
+    #      returns outputs grouped by funding transaction); selections of >= 3 coins
+    for amounts in ([1, 4, 2, 10, 10], [1, 2, 3, 5], [1, 1, 4, 2, 6]):
+        for layout in ('one', 'per-coin', 'interleaved', 'pairs'):
+            items.append(('G12', {'amounts': amounts, 'layout': layout,
+                                  'strategies': ['sqlite', 'prefer_confirmed', 'random_draw'] if quick else ALL_STRATEGIES}))
     # G11: two builds requested together (asyncio.gather, default schedule only - interleavings are C14's)
     for w in [['1'], ['1', '1'], ['5', '1'], ['cent', '1', '1'], ['1', '1', '1', '1']]:
         items.append(('G11', {'syms': w, 'fpb': 50, 'strategies': ALL_STRATEGIES + [None]}))
@@ -287,6 +293,18 @@ def expand(group, a, seed):
         return list(single_cases(a, seed))
     if group == 'G10':
         return list(history_cases(a, a['tier'], seed))
+    if group == 'G12':
+        fpb = 50
+        coins = [[a * COIN, 'conf', 'coin', [], i] for i, a in enumerate(a['amounts'])]
+        eff = [c[0] - IN_BYTES * fpb for c in coins]
+        sums = sorted({sum(x) for r in range(1, len(eff) + 1) for x in itertools.combinations(eff, r)})
+        out = []
+        for st in a['strategies']:
+            for d in sorted({v - sur for v in sums for sur in (0, PRICE_BYTES * fpb, COIN // 2)}):
+                if d > 0:
+                    out.append({'coins': coins, 'shape': 'pay1', 'deficit': d, 'strategy': st, 'fpb': fpb, 'fpnc': 0,
+                                'pre': False, 'used_change': 0, 'perm': 0, 'choice': seed, 'layout': a['layout']})
+        return out
     if group == 'G11':
         coins = mk_coins(a['syms'], a['fpb'])
         eff = sorted(e for e in effective_of(coins, a['fpb']) if e > 0)
@@ -497,7 +515,8 @@ def make_harness(case):
         # cost of [pay x] is x + 44*fpb; x is solved later from the deficit, so fix the input's amount here
         coins.append(Coin(3 * CENT + IN_BYTES * fpb, 'conf', 'coin', ['pre', 'reserved'], 2))
     return WalletH(coins, strategy=case['strategy'], fee_per_byte=fpb, fee_per_name_char=case['fpnc'],
-                   used_change=case['used_change'], perm=case['perm'], choice=case['choice'])
+                   used_change=case['used_change'], perm=case['perm'], choice=case['choice'],
+                   layout=case.get('layout', 'one'))
 
 
 class Session:
@@ -516,7 +535,7 @@ class Session:
     @staticmethod
     def key_of(case):
         return repr((case['coins'], case['shape'] in ('update', 'sweep') and case['shape'], case.get('pre_amount'),
-                     case['pre'], case['fpb'], case['used_change']))
+                     case['pre'], case['fpb'], case['used_change'], case.get('layout')))
 
     def get(self, case):
         key = self.key_of(case)
@@ -958,6 +977,8 @@ def judge(case, obs, res):
         res.witness('new_change_key_derived')
     if len(in_ids) >= 250:
         res.witness('250_inputs')
+    if case.get('layout', 'one') != 'one' and len(added) >= 3:
+        res.witness('three_or_more_inputs_from_several_funding_transactions')
     if len(t['outputs']) >= 250:
         res.witness('250_outputs')
     if n_extra == 1 and t['outputs'][-1]['amount'] == DUST + 1:
@@ -1066,7 +1087,7 @@ def eval_case(case, res, session):
         res.distinct_add('nontrivial', (tuple(map(repr, case['coins'])), case['shape'], case['deficit'],
                                         case.get('pre_amount'), case['strategy'], case['fpb'], case['fpnc'],
                                         case['pre'], case['used_change'], case['choice'],
-                                        repr(case.get('history')), repr(case.get('deficit_spec'))))
+                                        repr(case.get('history')), repr(case.get('deficit_spec')), case.get('layout')))
         res.distinct_add('outcome_classes', (case['strategy'], case['shape'], obs['outcome'],
                                              len(obs.get('raw', b'')) if obs['outcome'] == 'tx' else 0))
     if obs['shuffles'] and case['perm'] == 0:
@@ -1108,7 +1129,7 @@ def work(item, res):
 def run(ctx):
     items = gen_items(ctx.tier, ctx.seed)
     # group generator items into pool items of comparable cost
-    weights = {'G1': 12, 'G2': 12, 'G3': 8, 'G4': 2, 'G5': 12, 'G6': 1, 'G7': 10, 'G8': 4, 'G9': 1, 'G10': 4, 'G11': 5}
+    weights = {'G1': 12, 'G2': 12, 'G3': 8, 'G4': 2, 'G5': 12, 'G6': 1, 'G7': 10, 'G8': 4, 'G9': 1, 'G10': 4, 'G11': 5, 'G12': 2}
     pool_items = []
     by_group = {}
     for g, a in items:
@@ -1132,7 +1153,7 @@ def run(ctx):
               'unverified@-1); targets placed at reference sums (subset sums / singles / total) minus surplus in '
               '{-1,0,1,c/2,c34,c,c+1,C34+DUST+1,C,C+1,C+DUST,C+DUST+1,..} (c = 46 x fee rate, the selector cost of change, C = 56 x '
               'fee rate, the builder cost of change, c34/C34 the same with a 34-byte output) plus '
-              'short-by-1 and far-short; output shapes pay1, pay2, claim (ASCII names of 1/30 bytes and 2-, 3-, 4-byte and mixed UTF-8 names whose byte length differs from their character count; name fee rate 0/200000 per byte), update, '
+              'short-by-1 and far-short; funding layout (all coins in one funding transaction / one per coin / alternating between two transactions in amount order / pairs in amount order); output shapes pay1, pay2, claim (ASCII names of 1/30 bytes and 2-, 3-, 4-byte and mixed UTF-8 names whose byte length differs from their character count; name fee rate 0/200000 per byte), update, '
               'support, support+data, purchase, 250 outputs, 250 UTXOs, input-only sweep; pre-chosen reserved input worth '
               'cost-d for d in {5,9,10,11,50,99,100,0,-1,-DUST,..}; fee_per_byte 1/50/1000; decoys (reserved, spent, '
               "other account's, claim, received purchase); used change addresses 0/1/2; multi-step histories on one ledger "
@@ -1162,7 +1183,7 @@ def run(ctx):
                             'accumulation_of_several_inputs', 'random_draw_reached', 'new_change_key_derived',
                             '250_inputs', '250_outputs', 'failure_after_outputs_were_reserved',
                             'failure_in_round_2_or_later_after_reserving', 'history_confirmed_coin_used_by_only_confirmed',
-                            'two_concurrent_builds_both_funded', 'change_of_exactly_dust_plus_1', 'largest_surplus_without_change'],
+                            'two_concurrent_builds_both_funded', 'three_or_more_inputs_from_several_funding_transactions', 'change_of_exactly_dust_plus_1', 'largest_surplus_without_change'],
     )
 
 
